@@ -61,10 +61,19 @@ type Runner struct {
 
 // NewRunner opens a fresh DB on a new storage.
 func NewRunner(r *rand.Rand, os model.OptSet, nkeys int, record bool) (*Runner, error) {
+	return NewRunnerBig(r, os, nkeys, record, false)
+}
+
+// NewRunnerBig is NewRunner with, optionally, keys of 1.5-7.5 KiB (manifest and journal records then span
+// 32 KiB journal blocks, index blocks hold few entries).
+func NewRunnerBig(r *rand.Rand, os model.OptSet, nkeys int, record, bigKeys bool) (*Runner, error) {
 	ru := &Runner{
 		R: r, Stor: vstor.New(record), OS: os, M: model.NewMap(os.O.Comparer),
 		Keys: model.NewKeyGen(r, nkeys), Stats: map[string]int64{}, Used: map[string]bool{},
 		memAt: map[string]uint32{},
+	}
+	if bigKeys {
+		ru.Keys.Inflate(r, 1500, 7500)
 	}
 	ru.Stor.SetKeepLogs(true)
 	ru.Stor.OnLog = func(line string) {
